@@ -26,9 +26,10 @@ pub fn info() -> PropInfo {
     PropInfo {
         id: "C15",
         level: "exploration",
-        rule: "Five streams. `single`: complete enumeration of ~640 atoms (every write::Expression builder incl. op(DwOp) for every operand-less opcode and raw(), with boundary operands: constants 31/32/127/128/2^k/u64::MAX, i64 extremes, registers 31/32/127/128/16383/16384/65535, pick 0/1/2/3/255, blocks of 0..129/255/256/16380..16384 bytes, entry_value with nested length 127/128/16383, nesting depth 3, references to the root, earlier, reordered, own, later and nested-later entries and to a second unit) x 4 wrappers (alone; skip forward over it + bra backward to it + skip to the end; the same inside an entry_value; bra backward to the start + skip to the end) x 64 encodings (versions 2-5 x Dwarf32/64 x address sizes 1/2/4/8 x both byte orders), hosted at once in an exprloc attribute, a two-item location list and (reference-free) in CIE and FDE CFI expressions (.debug_frame v1/3/4 and .eh_frame); programs with references must be rejected by the CFI writer. `rand`: seeded write::Dwarf objects with 1-3 units of independent encodings, 2-9 entries (base types at the root, nested, after the referring entry), 0-3 exprloc attributes or location lists per entry with 0-12 random operations from all builders, random branch targets (forward, backward, to the end), nested entry_value to depth 3, unit and cross-unit references; 10% of the cases allow forward ULEB references in attributes (writer may refuse). `eval`: seeded programs of an evaluable subset (constants in every encoding incl. raw fixed-size forms, stack operations, arithmetic, comparisons, counted loops with backward bra, forward skip/bra over variable-length snippets, skip to the end, nested entry_value, breg/fbreg/addr/cfa/tls/deref requests) whose emitted bytecode is evaluated with read::Evaluation and compared with a harness stack machine run on the built program. `cfi`: seeded reference-free programs in CfaExpression/Expression/ValExpression instructions, and programs with entry references that must be rejected. `edge`: branch displacements of exactly +32767/+32768/-32768/-32769 bytes and location-list expression sizes 65535/65536 in all 64 encodings. A fraction of the successful cases is written a second time with every expression replaced by Expression::raw(read-back block): the sections must be byte-identical. A case is non-trivial when it contains at least one operation; enumerated cases are distinct by construction (index <-> (atom, wrapper, encoding) bijection), random cases are de-duplicated by a digest of the complete case description.",
+        rule: "Five streams. `single`: complete enumeration of ~640 atoms (every write::Expression builder incl. op(DwOp) for every operand-less opcode and raw(), with boundary operands: constants 31/32/127/128/2^k/u64::MAX, i64 extremes, registers 31/32/127/128/16383/16384/65535, pick 0/1/2/3/255, blocks of 0..129/255/256/16380..16384 bytes, entry_value with nested length 127/128/16383, nesting depth 3, references to the root, earlier, reordered, own, later and nested-later entries and to a second unit) x 4 wrappers (alone; skip forward over it + bra backward to it + skip to the end; the same inside an entry_value; bra backward to the start + skip to the end) x 64 encodings (versions 2-5 x Dwarf32/64 x address sizes 1/2/4/8 x both byte orders), hosted at once in an exprloc attribute, a two-item location list and (reference-free) in CIE and FDE CFI expressions (.debug_frame v1/3/4 and .eh_frame); programs with references must be rejected by the CFI writer; every other case exchanges the two units so that the host unit starts at a non-zero section offset; the unoptimised profile runs a 1/3 slice (chosen by the seed) of this stream in the quick tier and all of it in the thorough tier. `rand`: seeded write::Dwarf objects with 1-3 units of independent encodings, 2-9 entries (base types at the root, nested, after the referring entry), 0-3 exprloc attributes or location lists per entry with 0-12 random operations from all builders, random branch targets (forward, backward, to the end), nested entry_value to depth 3, unit and cross-unit references; 10% of the cases allow forward ULEB references in attributes (writer may refuse). `eval`: seeded programs of an evaluable subset (constants in every encoding incl. raw fixed-size forms, stack operations, arithmetic, comparisons, counted loops with backward bra, forward skip/bra over variable-length snippets, skip to the end, nested entry_value, breg/fbreg/addr/cfa/tls/deref requests) whose emitted bytecode is evaluated with read::Evaluation and compared with a harness stack machine run on the built program. `cfi`: seeded reference-free programs in CfaExpression/Expression/ValExpression instructions, and programs with entry references that must be rejected. `edge`: branch displacements of exactly +32767/+32768/-32768/-32769 bytes and location-list expression sizes 65535/65536 in all 64 encodings. A fraction of the successful cases is written a second time with every expression replaced by Expression::raw(read-back block): the sections must be byte-identical. A case is non-trivial when it contains at least one operation; enumerated cases are distinct by construction (index <-> (atom, wrapper, encoding) bijection), random cases are de-duplicated by a digest of the complete case description.",
         assumptions: &[
             "the writer may refuse (Err) a DIE-attribute expression whose ULEB entry reference points to an entry written later (Appendix A.6); if it accepts, the reference must resolve correctly",
+            "Address::Symbol and DebugInfoRef::Symbol operands are not generated (relocation is C18); Expression::op is only given operand-less opcodes, set_target is always called with a target different from the branch, as documented",
             "the writer may refuse constants that do not fit the address size, const_type blocks > 255 bytes, and DWARF 2 implicit_pointer references that do not fit a 1/2-byte address-sized operand",
             "which of two equivalent opcodes (DW_OP_* vs DW_OP_GNU_*) is emitted is not part of the property statement; it is recorded as a secondary observation (secondary.opcode_family)",
             "DW_OP_piece sizes are generated below 2^61 bytes because read::Operation reports the size in bits",
